@@ -188,4 +188,16 @@ def run_seeded(prop=None, all_props=False):
         f"SEEDED {'all' if prop is None else prop}: {det}/{n} detected by the check of their own property, "
         f"{exp_missed} recorded as out of reach, stale {stale}, failures {failures}, wall {time.time() - t0:.1f}s"
     )
+    global LAST_SUMMARY
+    LAST_SUMMARY = {
+        "changes": n,
+        "reported_by_own_check": det,
+        "recorded_out_of_reach": exp_missed,
+        "stale": stale,
+        "failures": failures,
+        "ids": [{"id": r["id"], "reported": bool(r.get("detected_by_own")), "rules": sorted({x[0] for x in r["new"].get(r["property"], [])})} for r in rows],
+    }
     return 1 if failures else 0
+
+
+LAST_SUMMARY = None
